@@ -90,8 +90,18 @@ def constrain_cell(ns, rule_iv=True):
         if not (set(m) & banned) and not (anyacc and set(m) & _DISPLAY_CHARS):
             keep_multi.append(m)
             banned |= set(m)
+            if m == 'yy':
+                banned.add('[')  # '[' directly followed by 'yy' reads as the hidden tie '[y' + 'y'
     for n in ns:
         n['sigs'] = [s for s in n['sigs'] if (len(s) > 1 and s in keep_multi) or (len(s) == 1 and s not in banned)]
+        seen = set()
+        dedup = []
+        for s_ in n['sigs']:  # a multi-character unit at most once per note: 'yy' written twice in a row is 'yyyy'
+            if len(s_) > 1 and s_ in seen:
+                continue
+            seen.add(s_)
+            dedup.append(s_)
+        n['sigs'] = dedup
         n['sigs'] = [s for s in n['sigs'] if not (anyacc and set(s) & _DISPLAY_CHARS)]
     for n in ns:
         n['sigs'] = [s for s in n['sigs']
